@@ -16,7 +16,8 @@
   the finite-reach hypothesis, the REFUTATION of general termination
   (`resolve_diverges_counterexample`: a 2-entry table with unbalanced values on which no fuel
   suffices; the Go code overflows its stack), `resolve_refines_evalT` on the flat fragment and, under the
-  key-safety hypothesis, for nested keys; the real `norm` (re-lexing): irrelevant on inputs without
+  key-safety hypothesis, for nested keys (both directions: `resolve_iff_evalT_nested_partial`); the
+  real `norm` (re-lexing): irrelevant on inputs without
   partial delimiters, divergent on a balanced table with one.
 -/
 import YtkProofs.Resolver
@@ -494,7 +495,9 @@ theorem resolve_refines_evalT_nested_unconditional_refuted :
   sufficiently large fuel:  `∃ m0, ∀ m ≥ m0, keySafe tt m t st = true`  (`KeySafeEv`).  It follows
   * from ONE run that ends and is key-safe (`keySafe_stable`: more fuel repeats the run) — the
     hypotheses of `resolve_refines_evalT_nested_partial`, see `resolve_iff_evalT_nested_run_partial`;
-  * from the static table-level predicate (`resolve_iff_evalT_nested_static_partial`).
+  * from the static table-level predicate (`resolve_iff_evalT_nested_static_partial`);
+  and, the evaluator being total (`evalT2_total_nested`), it says exactly: the run is key-safe when
+  it has ended (`keySafe_eventually_iff_ended`, `resolve_iff_evalT_nested_ended_partial`).
   Proof of the converse: induction on the resolver's fuel; the text `key:default` of a placeholder
   is a concatenation, so "fuel n suffices for s₁ ++ s₂" is inverted into "fuel n suffices for the
   balanced s₁" and "… for s₂ if s₁ gives a text" (`Ends.append_left/right`); sub-runs inherit
@@ -551,6 +554,30 @@ theorem resolve_iff_evalT_nested_static_partial {tt : TTable2} (hT : tt.WF) (hS 
     (t : Tmpl2) (st : List Toks) (ht : t.WF) (hk : t.KeysOK) (r : Res) :
     Resolves id (toTable2 tt) (render2 t) st r ↔ ∃ m, evalT2 tt m t st = r ∧ r ≠ .outOfFuel :=
   resolves_iff_evalT2 hT t st ht (KeySafeEv.of_static hS hk) r
+
+/-- the reference evaluator is TOTAL — every table (well-formed or not), every template, every
+    stack: from some fuel on it gives one and the same text or circular reference.  (Measure:
+    placeholder texts of the template and the table values not yet on the stack, then the structure
+    of the template; compare `resolve_diverges_counterexample`: the RESOLVER is not total.) -/
+theorem evalT2_total_nested (tt : TTable2) (t : Tmpl2) (st : List Toks) :
+    ∃ k r, r ≠ .outOfFuel ∧ ∀ m, k ≤ m → evalT2 tt m t st = r := by
+  obtain ⟨k, hk⟩ := evalT2_total tt t st
+  exact ⟨k, _, hk, evalT2_eventually rfl hk⟩
+
+/-- hence the three forms of the key-safety hypothesis say the same thing — "the run of the
+    evaluator, when it has ended, is key-safe": key-safe for every sufficiently large fuel ⇔
+    key-safe at every fuel that suffices -/
+theorem keySafe_eventually_iff_ended (tt : TTable2) (t : Tmpl2) (st : List Toks) :
+    (∃ m0, ∀ m, m0 ≤ m → keySafe tt m t st = true) ↔
+      ∀ m, evalT2 tt m t st ≠ .outOfFuel → keySafe tt m t st = true :=
+  ⟨fun h _ hm => KeySafeEv.ended h hm, KeySafeEv.of_ended⟩
+
+/-- `resolve_iff_evalT`, nested keys, with the hypothesis in that form -/
+theorem resolve_iff_evalT_nested_ended_partial {tt : TTable2} (hT : tt.WF) (t : Tmpl2)
+    (st : List Toks) (ht : t.WF)
+    (hk : ∀ m, evalT2 tt m t st ≠ .outOfFuel → keySafe tt m t st = true) (r : Res) :
+    Resolves id (toTable2 tt) (render2 t) st r ↔ ∃ m, evalT2 tt m t st = r ∧ r ≠ .outOfFuel :=
+  resolves_iff_evalT2 hT t st ht (KeySafeEv.of_ended hk) r
 
 /-- consequence: over a well-formed table the reference evaluator ENDS on every key-safe run — with
     the result of the resolver (which ends on every balanced table:
@@ -856,7 +883,7 @@ theorem nonvacuous_evalT_cycle :
     for every sufficiently large fuel, which follows from one key-safe run that ends —
     `resolve_iff_evalT_nested_run_partial`, `keySafe_stable` — and from the static table predicate —
     `resolve_iff_evalT_nested_static_partial`), under the real `norm`
-    `resolve_iff_evalT_nested_relex_partial`; consequence `evalT2_terminates_nested_partial`; the
+    `resolve_iff_evalT_nested_relex_partial`; `evalT2` is total (`evalT2_total_nested`); the
     unconditional equivalence is refuted (`resolve_iff_evalT_nested_unconditional_refuted`).
     The harness compares with an independently written Go recursive-descent reference on the full
     grammar.
